@@ -300,6 +300,15 @@ def run(ctx):
                             if sb.crate == b.crate and sb.def_ not in seen_bodies:
                                 seen_bodies.add(sb.def_)
                                 bad += [(None, "%s: %s" % (sb.name, m)) for _, m in slice_check(sb, [0], depth - 1, seen_bodies, stats)]
+                                # the weight is a function of the rate and the draw alone: a helper on the way keeps nothing between
+                                # calls (a memo of the last split written through a `&mut` parameter makes the weight depend on history)
+                                spr = Prov(sb)
+                                for i_ in sb.live_blocks():
+                                    for st_ in sb.stmts(i_):
+                                        if st_["k"] == "assign" and has_deref(st_["lhs"]) and any(e_[0] == "f" for e_ in st_["lhs"].get("p", [])) and \
+                                                any(x[0] == "arg" for x in spr.local(st_["lhs"]["l"])):
+                                            bad.append((None, "%s stores into state it was lent (`%s`): the weight then depends on earlier calls" % (
+                                                sb.name, ".".join(e_[2] for e_ in st_["lhs"]["p"] if e_[0] == "f"))))
                     continue
                 if node["k"] != "assign":
                     continue
@@ -343,8 +352,9 @@ def run(ctx):
             bad = slice_check(b, [op_local(w_op)], 5, visited, stats)
             n5 += stats["ops"] + stats["casts"]
             ctx.check(not bad, "R12.5", fnkey(b) + "#weight-computed-in-f64", loc(b, c.bb),
-                      "the weight handed to the formatter depends on a precision-losing step: %s. A 32-bit reciprocal has 24 significant bits, so for "
-                      "rates below about 2^-24 the weight is no longer floor(1/rate) or ceil(1/rate)" % "; ".join(m for _, m in bad[:4]),
+                      "the weight handed to the formatter is not a full-precision function of the rate and the draw alone: %s. (A 32-bit reciprocal has 24 "
+                      "significant bits, so for rates below about 2^-24 the weight is no longer floor(1/rate) or ceil(1/rate); state kept between calls "
+                      "makes the weight depend on the rates seen before)" % "; ".join(m for _, m in bad[:4]),
                       "data slice of the multiplicity through %s: %d arithmetic/cast steps, none on f32 values" % (sorted(x.split("::")[-1] for x in visited), stats["ops"] + stats["casts"]))
             max_visited = max(max_visited, len(visited))
     ctx.floor("R12.5", "helper bodies in the weight's data slice", max_visited, 2)
